@@ -616,24 +616,27 @@ fn level_has_var_condition(sels: &[MSelection], frags: &BTreeMap<String, MFragme
     false
 }
 
-/// collect, for one level (through fragments / inline fragments), fields grouped by key
+/// collect, for one level (through fragments / inline fragments), fields grouped by key.
+/// A fragment spread twice contributes twice: nitrogql's printer has no visited-fragments
+/// set, so it merges a fragment's fields with themselves (`stack` only guards cycles).
 fn level_fields<'b>(
     sels: &'b [MSelection],
     frags: &'b BTreeMap<String, MFragment>,
-    seen: &mut BTreeSet<String>,
+    stack: &mut BTreeSet<String>,
     out: &mut BTreeMap<String, Vec<&'b MFieldSel>>,
 ) {
     for s in sels {
         match s {
             MSelection::Field(f) => out.entry(f.key().to_string()).or_default().push(f),
             MSelection::Spread { name, .. } => {
-                if seen.insert(name.clone()) {
+                if stack.insert(name.clone()) {
                     if let Some(fr) = frags.get(name) {
-                        level_fields(&fr.sel, frags, seen, out);
+                        level_fields(&fr.sel, frags, stack, out);
                     }
+                    stack.remove(name);
                 }
             }
-            MSelection::Inline { sel, .. } => level_fields(sel, frags, seen, out),
+            MSelection::Inline { sel, .. } => level_fields(sel, frags, stack, out),
         }
     }
 }
